@@ -677,7 +677,19 @@ std::string sqf::parser::preprocessor::impl_default::instance::handle_macro(::sq
         "        " <<
         "    " << "\x1B[36mhandle_macro(...)\033[0m starting replace." << std::endl;
 #endif
-    return replace(runtime, original_fileinfo, m, params);
+    if (m_macro_depth >= max_macro_depth)
+    {
+        if (!m_errflag)
+        {
+            log(err::MacroRecursion(original_fileinfo.to_diag_info(), std::string(m.name())));
+        }
+        m_errflag = true;
+        return "";
+    }
+    ++m_macro_depth;
+    auto replaced = replace(runtime, original_fileinfo, m, params);
+    --m_macro_depth;
+    return replaced;
 }
 
 std::string sqf::parser::preprocessor::impl_default::instance::parse_ppinstruction(::sqf::runtime::runtime& runtime, preprocessorfileinfo& fileinfo)
